@@ -44,6 +44,10 @@ class Translator:
                 return "(EInt (%d)%%Z)" % v
             if isinstance(v, str):
                 return "(EStr %s)" % cstr(v)
+            if isinstance(v, float) and v == v and v not in (float("inf"), -float("inf")):
+                # a finite float literal of the text: spelled float.fromhex(<exact value>) on both sides of the C09 comparison;
+                # the interpreter evaluates it exactly (Model/Interp.v)
+                return "(ECall (EAttr (EName %s) \"fromhex\") [EStr %s] [])" % (self.ident("float"), cstr(v.hex()))
             raise Unsupported("constant %r" % (v,))
         if t is ast.BinOp:
             if type(e.op) not in BINOPS:
